@@ -63,8 +63,9 @@ CHECKS["C09"] = dict(category="exploration",
            "rotation across the origin of a tight ring) every protein range [s,e) up to 40 residues (sampled above) is mapped to DNA and the "
            "extracted, translated bases are compared with the slice of the gene's own Biopython translation; the same for prepeptide "
            "leader/core/tail, domain/motif/PFAM features generated by hmmer helpers, and TTA codon markers.",
-      note="Trusted: Biopython extraction/translation. Two open known findings pinned by repository tests or Feature() validation "
-           "(prepeptide last section includes the stop codon; overlapping-exon sub-location with equal part ends refused).",
+      note="Trusted: Biopython extraction/translation. Three open known findings pinned by repository tests or Feature() validation "
+           "(prepeptide last section includes the stop codon; overlapping-exon sub-location with equal part ends refused; touching "
+           "reverse-strand sections of a whole-ring prepeptide fused on re-read).",
       design="3/C09")
 CHECKS["C14"] = dict(category="exploration",
       technique="bounded-exhaustive enumeration of domain strings over class representatives (length<=3/4) + Hypothesis template-mixed generators, validity predicates and a reference layout state machine",
@@ -158,8 +159,10 @@ CHECKS["C13"] = dict(category="exploration",
            "starts, equal scores, nesting, chains, fragments) under all input orders (<=4 hits: all n!, more: a fixed family plus every order "
            "the internal set can give equal-start hits): sorted, no overlap beyond the margin, every output an input or a legal merge, every "
            "drop explained by a kept better hit or a more complete alternative, and identical results for every order.",
-      note="One open known finding (a complete hit displaced by a short fragment that is then removed as incomplete: stage order, needs a maintainer "
-           "decision). Cross-process hash-seed invariance is C17's.",
+      note="Two open known findings, both stage order and a maintainer decision (a complete hit displaced by a short fragment that is then "
+           "removed as incomplete; a hit displaced by an equivalent profile's hit that the one-per-profile stage then removes). The composition "
+           "of the two per-gene filters is judged through the real find_hmmer_hits with a replaced hmmsearch output. Cross-process hash-seed "
+           "invariance is C17's.",
       design="3/C13")
 CHECKS["C06"] = dict(category="exploration",
       technique="exhaustive enumeration of area multisets on small lines/rings + Hypothesis layouts against union-find components on the set-of-bases model; Hypothesis rule-based state machine over add/clear/create histories with invariants after every step",
@@ -186,8 +189,9 @@ CHECKS["C10"] = dict(category="exploration",
            "results JSON (record_to_json, AntismashResults.write_to_file/from_file incl. bz2 and schema refusal) and read back; sequence, topology, "
            "multiset of emitted features, area numbering and cross references, gene functions, domain attributes and secmet locations must be "
            "equal, the second write must be identical to the first, and the first write is judged against the input spec.",
-      note="Three open known findings: equal-coordinate areas/genes swap numbers on reload (pinned by TestRegionManipulation.test_creation_overlapping), "
-           "ambiguous gene-function text, prepeptide location rebuilt from its sections. Module results in the JSON are C11's.",
+      note="Four open known findings: equal-coordinate areas/genes swap numbers on reload (pinned by TestRegionManipulation.test_creation_overlapping), "
+           "ambiguous gene-function text, prepeptide location rebuilt from its sections, a long locus tag inside the free-text smCOG tree note "
+           "gains a blank. Module results in the JSON are C11's.",
       design="3/C10")
 NOT_YET = {}
 
